@@ -37,6 +37,9 @@ type facts struct {
 	CloseWalksAll        bool              `json:"close_walks_all"`
 	CleanupUnsignedGuard bool              `json:"cleanup_unsigned_guard"`
 	LegacyFlags          map[string]bool   `json:"legacy_flags"`
+	UpdateJSONFields     []string          `json:"update_json_fields"`
+	BoltKeyShape         string            `json:"bolt_key_shape"`
+	BoltValueCodec       string            `json:"bolt_value_codec"`
 	Consts               map[string]string `json:"consts"`
 	Errors               []string          `json:"errors"`
 }
@@ -765,6 +768,103 @@ func (fa *facts) legacyFlags(repo string) {
 	fa.LegacyFlags = fl
 }
 
+// structFields: the fields of a struct type as encoding/json sees them, in order: "Name:type" (plus "|tag" when
+// the field carries a struct tag); an embedded struct of the same package is flattened in place.
+func structFields(files []*ast.File, name string, depth int) ([]string, bool) {
+	for _, f := range files {
+		for _, d := range f.Decls {
+			gd, ok := d.(*ast.GenDecl)
+			if !ok {
+				continue
+			}
+			for _, sp := range gd.Specs {
+				ts, ok := sp.(*ast.TypeSpec)
+				if !ok || ts.Name.Name != name {
+					continue
+				}
+				st, ok := ts.Type.(*ast.StructType)
+				if !ok {
+					return nil, false
+				}
+				var out []string
+				for _, fl := range st.Fields.List {
+					tag := ""
+					if fl.Tag != nil {
+						tag = "|" + fl.Tag.Value
+					}
+					if len(fl.Names) == 0 { // embedded
+						id, ok := fl.Type.(*ast.Ident)
+						if !ok || depth > 2 || tag != "" {
+							return nil, false
+						}
+						sub, ok := structFields(files, id.Name, depth+1)
+						if !ok {
+							return nil, false
+						}
+						out = append(out, sub...)
+
+						continue
+					}
+					for _, n := range fl.Names {
+						if !n.IsExported() {
+							continue
+						}
+						out = append(out, n.Name+":"+exprString2(fl.Type)+tag)
+					}
+				}
+
+				return out, true
+			}
+		}
+	}
+
+	return nil, false
+}
+
+var (
+	reKeyPut  = regexp.MustCompile(`make\(\[\]byte, 8\)[\s\S]*binary\.BigEndian\.PutUint64\((\w+), (\w+)\)[\s\S]*bytes\.Join\(\[\]\[\]byte\{(\w+), \[\]byte\((\w+)\)\}, \[\]byte\{\}\)`)
+	reKeyRead = regexp.MustCompile(`string\((\w+)\[8:\]\)[\s\S]*binary\.BigEndian\.Uint64\((\w+)\[:8\]\)`)
+)
+
+// storeFacts: the layout of what the Bolt transport stores — the JSON shape of Update (field list, tags), the key
+// construction in persist and the way dispatchHistory / getDBLastEventID / cleanup read keys back.
+func (fa *facts) storeFacts(repo string) {
+	files := []*ast.File{parse(repo, "update.go"), parse(repo, "event.go")}
+	fields, ok := structFields(files, "Update", 0)
+	if !ok {
+		fa.errf("update.go: struct Update not recognised")
+	}
+	fa.UpdateJSONFields = fields
+	// a custom (Un)MarshalJSON on Update or Event would bypass the field list
+	for _, f := range files {
+		for _, d := range f.Decls {
+			if fd, ok := d.(*ast.FuncDecl); ok && (fd.Name.Name == "MarshalJSON" || fd.Name.Name == "UnmarshalJSON" || fd.Name.Name == "MarshalText" || fd.Name.Name == "UnmarshalText") {
+				fa.UpdateJSONFields = append(fa.UpdateJSONFields, "custom:"+fd.Name.Name)
+			}
+		}
+	}
+	b := parse(repo, "bolt.go")
+	fa.BoltKeyShape = "unrecognised"
+	if fd := funcDecl(b, "BoltTransport", "persist"); fd != nil {
+		if m := reKeyPut.FindStringSubmatch(nodeString(fd)); m != nil && m[1] == m[3] {
+			fa.BoltKeyShape = "be64(seq)||id"
+		}
+	}
+	for _, fn := range []string{"dispatchHistory"} {
+		if fd := funcDecl(b, "BoltTransport", fn); fd == nil || !reKeyRead.MatchString(nodeString(fd)) {
+			fa.BoltKeyShape = "unrecognised-read:" + fn
+		}
+	}
+	if fd := funcDecl(b, "", "getDBLastEventID"); fd == nil || !regexp.MustCompile(`string\(\w+\[8:\]\)`).MatchString(nodeString(fd)) {
+		fa.BoltKeyShape = "unrecognised-read:getDBLastEventID"
+	}
+	fa.BoltValueCodec = "unrecognised"
+	d, h := funcDecl(b, "BoltTransport", "Dispatch"), funcDecl(b, "BoltTransport", "dispatchHistory")
+	if d != nil && h != nil && regexp.MustCompile(`json\.Marshal\(\*\w+\)`).MatchString(nodeString(d)) && regexp.MustCompile(`json\.Unmarshal\(\w+, &\w+\)`).MatchString(nodeString(h)) {
+		fa.BoltValueCodec = "encoding/json"
+	}
+}
+
 func exprString2(e ast.Expr) string {
 	if u, ok := e.(*ast.UnaryExpr); ok {
 		return "&" + exprString(u.X)
@@ -832,6 +932,14 @@ func (fa *facts) lean() string {
 	fmt.Fprintf(&b, "def closeWalksAll : Bool := %v\n", fa.CloseWalksAll)
 	fmt.Fprintf(&b, "def cleanupUnsignedGuard : Bool := %v\n", fa.CleanupUnsignedGuard)
 	fmt.Fprintf(&b, "def legacyFlags : Mercure.Config.LegacyFlags := ⟨%v, %v⟩\n", fa.LegacyFlags["requireSubscriberKey"], fa.LegacyFlags["zeroMeansDisabled"])
+	fmt.Fprintf(&b, "def updateJSONFields : List String := %s\n", goStrList(fa.UpdateJSONFields))
+	var names []string
+	for _, f := range fa.UpdateJSONFields {
+		names = append(names, strings.SplitN(f, ":", 2)[0])
+	}
+	fmt.Fprintf(&b, "def updateJSONNames : List String := %s\n", goStrList(names))
+	fmt.Fprintf(&b, "def boltKeyShape : String := %q\n", fa.BoltKeyShape)
+	fmt.Fprintf(&b, "def boltValueCodec : String := %q\n", fa.BoltValueCodec)
 	fmt.Fprintf(&b, "def extractionErrors : Nat := %d\n", len(fa.Errors))
 	b.WriteString("end Mercure.Facts\n")
 
@@ -863,6 +971,7 @@ func main() {
 	fa.idEscape(repo)
 	fa.sysFlags(repo)
 	fa.legacyFlags(repo)
+	fa.storeFacts(repo)
 	if fa.Errors == nil {
 		fa.Errors = []string{}
 	}
